@@ -10,9 +10,9 @@ const TWO31: i64 = 1 << 31;
 
 pub fn jint(x: i64) -> J {
     // values just beyond 32 bits (wrap-around candidates) have their own base: TLC integers are 32-bit
-    if x > (1 << 50) && x.checked_sub(TWO53).map(|d| d.abs() < (1 << 20)).unwrap_or(false) { return json!({"t": "int", "b": 3, "i": x - TWO53}); }
-    if x.checked_sub(TWO31).map(|d| d.abs() < (1 << 20)).unwrap_or(false) { return json!({"t": "int", "b": 4, "i": x - TWO31}); }
-    if x.checked_sub(TWO32).map(|d| d.abs() < (1 << 20)).unwrap_or(false) { return json!({"t": "int", "b": 2, "i": x - TWO32}); }
+    if x > (1 << 50) && x.checked_sub(TWO53).map(|d| d.unsigned_abs() < (1 << 20)).unwrap_or(false) { return json!({"t": "int", "b": 3, "i": x - TWO53}); }
+    if x.checked_sub(TWO31).map(|d| d.unsigned_abs() < (1 << 20)).unwrap_or(false) { return json!({"t": "int", "b": 4, "i": x - TWO31}); }
+    if x.checked_sub(TWO32).map(|d| d.unsigned_abs() < (1 << 20)).unwrap_or(false) { return json!({"t": "int", "b": 2, "i": x - TWO32}); }
     if x > i64::MAX - NEAR { json!({"t": "int", "b": 1, "i": x - i64::MAX}) }
     else if x < i64::MIN + NEAR { json!({"t": "int", "b": -1, "i": x - i64::MIN}) }
     else { json!({"t": "int", "b": 0, "i": x}) }
